@@ -6,6 +6,7 @@ import (
 	"fmt"
 	"net/http"
 	"strconv"
+	"strings"
 
 	connect "github.com/bufbuild/connect-go"
 
@@ -268,7 +269,21 @@ func genC09(t *core.Tape, tier string) *Scenario {
 			if c.Proto == PGRPC {
 				trailer = http.Header{"Grpc-Status": {"0"}}
 			}
-			p.Canned = &simhttp.Canned{Status: 200, Header: hdr, Body: body, Trailer: trailer}
+			status := 200
+			if !streaming && (info.attack == "bomb" || info.attack == "plain-1m") && t.Bool(1, 2, "attack.in.error.body") {
+				// the oversized / highly compressible payload is the body of an
+				// error response
+				status = []int{429, 503, 400}[t.Choose(3, "attack.status")]
+				hdr["Content-Type"] = []string{"application/json"}
+				js := []byte(`{"code":"resource_exhausted","message":"` + strings.Repeat("Z", 1<<20) + `"}`)
+				if info.attack == "bomb" {
+					js = gzipBytes([]byte(`{"code":"resource_exhausted","message":"` + strings.Repeat("Z", 4<<20) + `"}`))
+				}
+				body = js
+				info.attack += "-error-body"
+				sc.Notes["attack_in_error_body"]++
+			}
+			p.Canned = &simhttp.Canned{Status: status, Header: hdr, Body: body, Trailer: trailer}
 			stdPrograms(t, p)
 			if p.Kind == KBidi {
 				p.Split = false
@@ -433,6 +448,9 @@ func checkC09(w *World, st core.Status, r *RunResult) []Violation {
 			}
 			// buffering bound: the largest buffer the receiver released
 			bound := 4*info.n + 64<<10
+			if o.Final != nil && len(o.Final.Error()) > bound {
+				add("attack-delivered-in-error/"+info.attack, fmt.Sprintf("the error handed to the application carries %d bytes of the peer's payload (bound %d)", len(o.Final.Error()), bound))
+			}
 			if max := w.pools.stats.MaxReleasedCap; max > bound {
 				add("buffered-beyond-limit/"+info.attack, fmt.Sprintf("the receiver held a %d-byte buffer for one message (bound %d)", max, bound))
 			}
